@@ -231,6 +231,41 @@ def run(F, ck, tier):
     # ---- R06.7
     ck.rule('R06.7', 'witness assignment pairs targets with proof values exactly: zip_eq, fixed-size arrays, or an Err-returning guard that rejects a value sequence longer than its targets')
     assign.check(F, ck, 'R06.7')
+    # ---------------------------------------------------------------- R06.10 the in-circuit proof-of-work constraint has no exemption
+    ck.rule('R06.10', 'CircuitBuilder::fri_verify_proof_of_work emits its constraint for every non-zero number of required leading zeros: an early exit is admissible only for "<= 0" (normalised algebraically); the native check has no exemption at all')
+    from . import poly as _poly
+    pw = [f for f in F.find('CircuitBuilder::fri_verify_proof_of_work', crate='plonky2') if f.body is not None]
+    if len(pw) != 1:
+        ck.ob('R06.10', 'anchor', False, 'ANCHOR-MISSING CircuitBuilder::fri_verify_proof_of_work (%d)' % len(pw))
+    else:
+        fnp = pw[0]
+        sink = any(x.get('k') == 'MCall' and x.get('n') in ('assert_leading_zeros', 'range_check', 'split_le', 'assert_zero') for x in walk(fnp.body))
+        bad = []
+        diffs = {id(n): d for d, n in _poly.cmp_diffs(_poly.Ev(F), fnp)}
+        for x in walk(fnp.body):
+            if x.get('k') != 'If':
+                continue
+            exits = any(y.get('k') == 'Ret' for br in (x.get('th'), x.get('el')) if br is not None for y in walk(br))
+            if not exits:
+                continue
+            for c in walk(x['c']):
+                if c.get('k') != 'Bin' or c.get('op') not in ('Lt', 'Le', 'Gt', 'Ge', 'Eq', 'Ne'):
+                    continue
+                if c['op'] == 'Eq' and any(s_.get('k') == 'Lit' and str(s_.get('v')) == '0' for s_ in (c['l'], c['r'])):
+                    continue
+                d = diffs.get(id(c))
+                if d is not None and d.get((), 0) == 0 and all(v < 0 for m, v in d.items() if m != ()):
+                    continue        # x <= 0
+                bad.append(c.get('s'))
+        okp = sink and not bad
+        ck.ob('R06.10', 'pow.circuit.no-exemption', okp, 'constraint emitted for every non-zero requirement' if okp else
+              ('IN-CIRCUIT PROOF OF WORK SKIPPED: CircuitBuilder::fri_verify_proof_of_work returns early under a condition that also holds for a non-zero number of required leading zeros: '
+               'for such configurations a proof with a bad grinding witness, which the native verifier rejects, satisfies the outer circuit' if bad else
+               'CircuitBuilder::fri_verify_proof_of_work no longer constrains the leading zeros of the response'), bad[0] if bad else '%s:%d' % (fnp.file, fnp.line))
+    # ---------------------------------------------------------------- R06.11 the in-circuit FRI walks a mixed-arity schedule step by step
+    ck.rule('R06.11', 'the in-circuit FRI query round takes every per-step quantity from the arity of THAT step (R16.3 of C16: no `first()` / position-times-arity shortcut): a uniform-arity assumption rejects valid inner proofs under mixed schedules')
+    from . import c16 as _c16, report as _report
+    _c16.run(F, _report.FilterProxy(ck, {'R16.3': 'R06.11'}), tier)
     ck.decided += ['each native PLONK/FRI check has a circuit twin with corresponding sources', 'circuit transcript = native transcript', 'witness assignment covers and pairs all target fields', 'opening order native = target']
     ck.undecided += ['equality of the accepted sets (behavioural)', 'gadget-level correctness of the in-circuit arithmetic']
     return 'Decides structural necessary conditions of C06: twin obligations, transcript agreement, witness-assignment coverage/pairing and opening-order agreement. Does not decide equality of the accepted sets.'
